@@ -174,7 +174,10 @@ register(
                      "at least one insert, final list non-empty", nontrivial=nt_flat),
             # the sequence view of C01 also has to hold for the results observed between two calls of a running
             # invocation (a second remove of a callback that is already removed but still being visited, ...)
-            cl_suite("reent", 150, 4000, nontrivial=nt_reent)],
+            cl_suite("reent", 150, 4000, nontrivial=nt_reent),
+            # ... and for lists that have handed out many generation numbers: the counter placed near the wrap and
+            # half way round the circle from the first callbacks' numbers
+            cl_suite("wrap", 120, 3000, nontrivial=lambda feat, script, canon: feat["wrap_cmds"] >= 1 and feat["calls"] >= 2)],
 )
 
 register(
@@ -186,6 +189,9 @@ register(
                      "re-invoke and enumerate to depth 3, through live / removed / never-issued handles; single, std::mutex and (thorough) SpinLock policies; "
                      "distinct = distinct canonical output; non-trivial = an inert (false) result produced inside a running invocation and >=3 calls",
                      nontrivial=nt_reent),
+            # additions from inside callbacks on the call that wraps the generation counter (getNextCounter takes the list
+            # mutex there): variant "checked" reports a lock by the thread that already holds it
+            cl_suite("wrap", 150, 3000, nontrivial=lambda feat, script, canon: feat["wrap_cmds"] >= 1 and feat["calls"] >= 3 and feat["beh"] >= 1),
             # the same through a dispatcher / queue: listeners that remove themselves or the last listener of the event
             # being dispatched, with a mutex whose use after destruction is a reported memory error (variant "checked")
             _rq.q_suite("dispatch", 150, 3000, [_rq.V("checked", 0, 0, 0, 0)], [_rq.V("checked", 0, 0, 0, 0), _rq.V("checked", 1, 1, 1, 0, mapk=1)],
